@@ -184,3 +184,23 @@ Definition code_opt (o : option str) : list N := match o with None => [0%N] | So
 Definition crash_views (s : st) (ops : list op) (p : str) : list (list N) :=
   let eff := effective s ops in
   map (fun k => code_view (look (run s (firstn k eff)) p)) (seq 0 (S (List.length eff))).
+
+(* observations are flattened to `list (list N)` and compared INSIDE Coq with what the implementation did, so that
+   only the indices of disagreeing cases have to be printed *)
+Definition enc_op (o : op) : list (list N) := let '(k, p1, p2, n) := code_op o in [[k; n]; p1; p2].
+Definition b2n (b : bool) : N := if b then 1%N else 0%N.
+
+Fixpoint lstr_eqb (a b : list (list N)) : bool :=
+  match a, b with
+  | [], [] => true
+  | x :: a', y :: b' => str_eqb x y && lstr_eqb a' b'
+  | _, _ => false
+  end.
+
+Fixpoint mismatches_from (i : nat) (got expected : list (list (list N))) : list nat :=
+  match got, expected with
+  | [], [] => []
+  | g :: gr, e :: er => if lstr_eqb g e then mismatches_from (S i) gr er else i :: mismatches_from (S i) gr er
+  | _, _ => [i]
+  end.
+Definition mismatches := mismatches_from 0.
